@@ -32,13 +32,23 @@ pub fn generate(prop: &str, _run: u64, t: &mut Tape) -> Scenario {
             p.w_zip = 4;
             gen::gen_pipe(t, p)
         }
-        "C05" => {
-            if _run % 4 == 3 {
-                gen2::gen_cwin(t)
-            } else {
-                gen::gen_pipe(t, Profile::pipe())
-            }
-        }
+        // C01 ("the result is the sequential one") and C05 ("nothing crosses an iteration
+        // boundary") are stated for every kind of job: a share of their runs draws from the
+        // specialised families
+        "C01" => match _run % 8 {
+            4 if _run % 16 == 4 => gen2::gen_state_skew(t),
+            4 => gen2::gen_loopfam(t, gen2::LoopOpts { side: true, nested: true }),
+            5 => gen3::gen_join(t),
+            6 => gen3::gen_fan(t),
+            7 => gen3::gen_agg(t),
+            _ => gen::gen_pipe(t, Profile::pipe()),
+        },
+        "C05" => match _run % 8 {
+            3 | 7 => gen2::gen_cwin(t),
+            5 => gen3::gen_join_opts(t, true),
+            6 => gen2::gen_loopfam(t, gen2::LoopOpts { side: _run % 16 == 6, nested: false }),
+            _ => gen::gen_pipe(t, Profile::pipe()),
+        },
         "C06" => gen2::gen_timed(t, true),
         "C03" => gen3::gen_route(t),
         "C07" => gen3::gen_agg(t),
@@ -51,6 +61,7 @@ pub fn generate(prop: &str, _run: u64, t: &mut Tape) -> Scenario {
         }
         "C09" => gen3::gen_fan(t),
         "C10" if _run % 8 == 7 => gen2::gen_nested_state(t),
+        "C10" if _run % 8 == 3 => gen2::gen_state_skew(t),
         "C10" => gen2::gen_loopfam(t, gen2::LoopOpts { side: _run % 3 == 0, nested: true }),
         "C11" => gen2::gen_loopfam(t, gen2::LoopOpts { side: true, nested: false }),
         "C12" => gen2::gen_cwin(t),
